@@ -20,6 +20,9 @@ EXPLANATION = (
     "the identity. R11.5: Viewbox.transform passes element and viewBox quantities in the parameter order. Not decided: "
     "digits lost by the 12-decimal formatting at extreme scales; tokenisation of unusual preserveAspectRatio spacing."
 )
+TECHNIQUE = (
+    "static analysis (no execution): the whole function partially evaluated for every preserveAspectRatio value (10 align x 3 meetOrSlice + defaults) and every identity-test answer; resulting transform strings compared with the SVG 2 8.2 reference as exact canonical forms"
+)
 ASSUMPTIONS = [
     "SVG 2 section 8.2 is the oracle; the reference is computed inside the checker from the specification text.",
     "String guards are decided over the finite domain of align/meetOrSlice values; no numeric value is computed.",
